@@ -116,8 +116,53 @@ def cache_key_includes_model():
     return True
 
 
+SEARCH_SELF_ATTRS = {"search_threshold", "use_batching", "_batch_get_embeddings", "_get_embeddings", "_index",
+                     "_items", "_filter_results"}
+
+
+def search_shape():
+    """BasicEmbeddingsIndex.search as the models assume it: the only instance state it touches is
+    SEARCH_SELF_ATTRS, it never assigns an instance attribute, and the vector handed to
+    get_nns_by_vector is a local assigned exactly twice, each time directly from an await of
+    self._batch_get_embeddings(text) / self._get_embeddings([text]).  Returns (ok, detail)."""
+    path = os.path.join(REPO, "nemoguardrails", "embeddings", "basic.py")
+    tree = ast.parse(open(path, encoding="utf-8").read())
+    cls = [n for n in tree.body if isinstance(n, ast.ClassDef) and n.name == "BasicEmbeddingsIndex"][0]
+    fn = [n for n in cls.body if isinstance(n, ast.AsyncFunctionDef) and n.name == "search"]
+    if len(fn) != 1:
+        raise ValueError("BasicEmbeddingsIndex.search not found")
+    fn = fn[0]
+    attrs = {n.attr for n in ast.walk(fn) if _self_attr(n, n.attr if isinstance(n, ast.Attribute) else "")}
+    stores = [n.attr for n in ast.walk(fn) if isinstance(n, ast.Attribute) and isinstance(n.ctx, (ast.Store, ast.Del))
+              and isinstance(n.value, ast.Name) and n.value.id == "self"]
+    if attrs != SEARCH_SELF_ATTRS:
+        return False, f"search touches self.{sorted(attrs ^ SEARCH_SELF_ATTRS)} beyond/short of the modelled state"
+    if stores:
+        return False, f"search assigns self.{stores}"
+    # the argument of get_nns_by_vector
+    calls = [n for n in ast.walk(fn) if isinstance(n, ast.Call) and isinstance(n.func, ast.Attribute) and n.func.attr == "get_nns_by_vector"]
+    if len(calls) != 1 or not calls[0].args or not isinstance(calls[0].args[0], ast.Name):
+        return False, "get_nns_by_vector is not called once with a local variable"
+    var = calls[0].args[0].id
+    assigns = [n for n in ast.walk(fn) if isinstance(n, ast.Assign) and any(isinstance(t, ast.Name) and t.id == var for t in n.targets)]
+    if len(assigns) != 2:
+        return False, f"{var} is assigned {len(assigns)} times"
+    srcs = set()
+    for a in assigns:
+        v = a.value
+        if isinstance(v, ast.Subscript):
+            v = v.value
+        if not isinstance(v, ast.Await) or not isinstance(v.value, ast.Call) or not _self_attr(v.value.func, getattr(v.value.func, "attr", "")):
+            return False, f"{var} is not assigned directly from an awaited self.<method>(...)"
+        srcs.add(v.value.func.attr)
+    if srcs != {"_batch_get_embeddings", "_get_embeddings"}:
+        return False, f"{var} comes from {sorted(srcs)}"
+    return True, ""
+
+
 def emit():
     d = basic_defaults()
+    shape_ok, _why = search_shape()
     incl = cache_key_includes_model()
     us = Fraction(str(d["max_batch_hold"])) * 1000000
     if us.denominator != 1:
@@ -128,6 +173,8 @@ def emit():
         f"Definition default_max_batch_size : nat := {d['max_batch_size']}.\n"
         f"Definition default_max_batch_hold_us : N := {us.numerator}%N.\n"
         f"Definition default_use_batching : bool := {'true' if d['use_batching'] else 'false'}.\n"
+        "(* basic.py: search() obtains its vector only from _batch_get_embeddings/_get_embeddings and keeps no state of its own *)\n"
+        f"Definition search_shape_as_modelled : bool := {'true' if shape_ok else 'false'}.\n"
         "(* cache.py: the identity of the index's embedding model is part of every cache key *)\n"
         f"Definition cache_key_includes_model : bool := {'true' if incl else 'false'}.\n"
     )
